@@ -75,8 +75,7 @@ fn prefix_text(id: &str, wide: bool) -> &'static str {
     }
 }
 
-/// CRC-32/ISO-HDLC of the bytes of the grammar file, computed here (bit by bit) and not by the library: the header
-/// of a destination says which grammar file it was compiled from
+/// CRC-32/ISO-HDLC of the bytes of the grammar file, computed here (bit by bit) and not by the library
 fn crc32(data: &[u8]) -> u32 {
     let mut crc = 0xFFFF_FFFFu32;
     for b in data {
@@ -88,14 +87,23 @@ fn crc32(data: &[u8]) -> u32 {
     !crc
 }
 
+/// The destination says of itself which grammar file it is the compilation of: when its leading comment block has
+/// a line "... CRC-32/ISO-HDLC of the grammar file: <hex>", that value must be the checksum of the grammar file as it
+/// is now. (A header that makes no such statement - reworded, another algorithm - is not judged here.)
 fn names_grammar_file(dest: &Option<Vec<u8>>, src: &str) -> bool {
-    match (dest, grammar_text(src)) {
-        (Some(d), Some(t)) => {
-            let line = format!("// CRC-32/ISO-HDLC of the grammar file: {:08x}\n", crc32(t.as_bytes()));
-            d.windows(line.len()).any(|w| w == line.as_bytes())
+    let (d, t) = match (dest, grammar_text(src)) {
+        (Some(d), Some(t)) => (String::from_utf8_lossy(d).into_owned(), t),
+        _ => return false,
+    };
+    for line in d.lines().take_while(|l| l.starts_with("//")) {
+        if let Some(k) = line.find("CRC-32/ISO-HDLC of the grammar file") {
+            let hex: String = line[k..].split(|c: char| !c.is_ascii_hexdigit()).find(|w| w.len() == 8).unwrap_or("").to_string();
+            if !hex.is_empty() {
+                return hex.eq_ignore_ascii_case(&format!("{:08x}", crc32(t.as_bytes())));
+            }
         }
-        _ => false,
     }
+    true
 }
 
 fn rustfmt(path: &Path) {
